@@ -156,6 +156,62 @@ fn synthetic(rng: &mut Rng) -> Vec<Event<'static>> {
     v
 }
 
+/// Entry-level oracle (implementation only): a breach that is only known when the stream has been scanned to its end
+/// (alias/anchor ratio) and the budget report reach the caller through EVERY single-document entry point, also when the
+/// document ends with `...` followed by comments or by text the scanner rejects; the callback runs exactly once.
+fn entry_oracle(out: &str, sink: &mut Sink) {
+    use serde::de::IgnoredAny;
+    use serde_saphyr::Options;
+    let mut fails: Vec<serde_json::Value> = Vec::new();
+    let bodies = ["a: &a 1\nb: [*a, *a, *a, *a, *a]\n", "- &x {k: v}\n- *x\n- *x\n- *x\n", "p: 1\nq: [2, 3]\n"];
+    let suffixes = ["", "...\n", "...\n# trailing comment\n", "...\n@garbage: [\n", "...\n]\n", "...\n\t- x\n"];
+    for body in bodies {
+        for suffix in suffixes {
+            for (bi, ratio_on) in [(0, true), (1, false)] {
+                let text = format!("{body}{suffix}");
+                let mk = |count: std::rc::Rc<std::cell::Cell<u32>>| -> Options {
+                    let mut o = Options::default();
+                    let mut bd = Budget::default();
+                    bd.enforce_alias_anchor_ratio = ratio_on;
+                    bd.alias_anchor_min_aliases = 2;
+                    bd.alias_anchor_ratio_multiplier = 1;
+                    o.budget = Some(bd);
+                    o.with_budget_report(move |_r| count.set(count.get() + 1))
+                };
+                let kind = |r: Result<(), serde_saphyr::Error>| match r { Ok(()) => "ok".to_string(), Err(e) => format!("err {}", crate::errs::kind(&e)) };
+                let mut results: Vec<(String, String, u32)> = Vec::new();
+                let c = std::rc::Rc::new(std::cell::Cell::new(0u32));
+                results.push(("from_str_with_options".into(), kind(serde_saphyr::from_str_with_options::<IgnoredAny>(&text, mk(c.clone())).map(|_| ())), c.get()));
+                let c = std::rc::Rc::new(std::cell::Cell::new(0u32));
+                results.push(("from_slice_with_options".into(), kind(serde_saphyr::from_slice_with_options::<IgnoredAny>(text.as_bytes(), mk(c.clone())).map(|_| ())), c.get()));
+                let c = std::rc::Rc::new(std::cell::Cell::new(0u32));
+                results.push(("with_deserializer_from_str_with_options".into(), kind(serde_saphyr::with_deserializer_from_str_with_options(&text, mk(c.clone()), |d| <IgnoredAny as serde::Deserialize>::deserialize(d)).map(|_| ())), c.get()));
+                let c = std::rc::Rc::new(std::cell::Cell::new(0u32));
+                results.push(("from_reader_with_options".into(), kind(serde_saphyr::from_reader_with_options::<_, IgnoredAny>(std::io::Cursor::new(text.as_bytes().to_vec()), mk(c.clone())).map(|_| ())), c.get()));
+                sink.count("entry_oracle.cases");
+                let first = results[0].clone();
+                for (name, res, calls) in &results {
+                    if *res != first.1 {
+                        fails.push(serde_json::json!({"id": "C07-entry-points-differ-on-final-breach", "what": format!("{name} vs {}: outcome differs", first.0), "input": text, "ratio_check": ratio_on, "observed": res, "expected": first.1}));
+                    }
+                    // the report is promised on success and on a budget breach; a syntax error may end the call without one
+                    let promised = res == "ok" || res.contains("Budget");
+                    if (promised && *calls != 1) || *calls > 1 {
+                        fails.push(serde_json::json!({"id": "C07-report-callback-count", "what": format!("{name}: the budget-report callback ran {calls} times"), "input": text, "ratio_check": ratio_on, "observed": calls.to_string(), "expected": "1"}));
+                    }
+                }
+                // documents with more aliases than anchors allow must be rejected when the ratio check is on
+                let has_aliases = body.contains('*');
+                if bi == 0 && has_aliases && !first.1.starts_with("err") {
+                    fails.push(serde_json::json!({"id": "C07-final-breach-not-surfaced", "what": "alias/anchor ratio exceeded but the call succeeded", "input": text, "observed": first.1, "expected": "err Budget"}));
+                }
+            }
+        }
+    }
+    let lines: Vec<String> = fails.iter().map(|f| f.to_string()).collect();
+    std::fs::write(format!("{out}/c07.oracle.jsonl"), lines.join("\n")).unwrap();
+}
+
 fn generate(a: &Args) -> i32 {
     let mut rng = Rng::new(a.seed);
     let mut sink = Sink::new(&a.out, "c07");
@@ -198,6 +254,7 @@ fn generate(a: &Args) -> i32 {
         }
         one(&mut sink, &bd, rng.chance(1, 2), &events, &toks);
     }
+    entry_oracle(&a.out, &mut sink);
     let nt = sink.stats.get("streams.distinct_nontrivial").copied().unwrap_or(0);
     sink.count("noop");
     sink.stats.insert("generated_texts_with_scan_error".into(), parse_fail);
